@@ -1,30 +1,38 @@
 #!/bin/bash
-# tools/refactest.sh [--prop Cxx] [name ...] : false-alarm regression (with --prop only that property's check is run). Every /verif/refactors/*.diff is a behaviour-preserving
+# tools/refactest.sh [-j N] [--prop Cxx] [name ...] : false-alarm regression (with --prop only that property's check is run). Every /verif/refactors/*.diff is a behaviour-preserving
 # refactoring of /repo (extracted helpers, rewritten conditions, renamed locals, reshaped loops ...) on which the
-# pinned suite still passes. Each is applied to a scratch copy of /repo; every check must stay silent on it.
+# pinned suite still passes. Each is applied to a scratch copy of /repo; every check must stay silent on it. N at a time (default 8).
 set -u
 export GOFLAGS=-mod=mod GOPROXY=off GOSUMDB=off GOTOOLCHAIN=local
 BIN=${GVERIF_BIN:-/verif/bin/gverif}
+J=8; [ "${1:-}" = "-j" ] && { J=$2; shift 2; }
 what=all
 if [ "${1:-}" = "--prop" ]; then what="check $2"; shift 2; fi
 S=$(mktemp -d /tmp/refactest.XXXXXX); trap 'rm -rf "$S"' EXIT
-mkdir -p $S/verif && cp /verif/known_findings.txt /verif/properties.jsonl $S/verif/
-fail=0; n=0; nalarm=0
-for d in /verif/refactors/*.diff; do
+one() {
+  d=$1; S=$2; BIN=$3; what="$4"
   name=$(basename $d .diff)
-  if [ $# -gt 0 ] && ! echo " $* " | grep -q " $name "; then continue; fi
-  rm -rf $S/repo; mkdir -p $S/repo; rsync -a --exclude .git --exclude test /repo/ $S/repo/
-  if ! (cd $S/repo && patch -p1 -s --no-backup-if-mismatch < $d >/dev/null 2>&1); then echo "REFACTEST-BROKEN $name: patch does not apply"; fail=1; continue; fi
+  T=$(mktemp -d $S/t.XXXXXX); mkdir -p $T/repo $T/verif; cp /verif/known_findings.txt /verif/properties.jsonl $T/verif/
+  rsync -a --exclude .git --exclude test /repo/ $T/repo/
+  if ! (cd $T/repo && patch -p1 -s --no-backup-if-mismatch < $d >/dev/null 2>&1); then echo "REFACTEST-BROKEN $name: patch does not apply"; rm -rf $T; return; fi
   # (with --prop the separate compile step is skipped: the checker type-checks the copy itself and reports a tree that does not load)
-  if [ "$what" = all ] && ! (cd $S/repo && go build ./builder/... ./context/... ./engine/... ./internal/... 2>$S/err); then echo "REFACTEST-BROKEN $name: does not compile: $(head -2 $S/err)"; fail=1; continue; fi
-  n=$((n+1))
-  out=$(GVERIF_REPO=$S/repo GVERIF_DIR=$S/verif $BIN $what 2>&1); code=$?
+  if [ "$what" = all ] && ! (cd $T/repo && go build ./builder/... ./context/... ./engine/... ./internal/... 2>$T/err); then echo "REFACTEST-BROKEN $name: does not compile: $(head -2 $T/err | tr '\n' ' ')"; rm -rf $T; return; fi
+  out=$(GVERIF_REPO=$T/repo GVERIF_DIR=$T/verif $BIN $what 2>&1); code=$?
   a=$(echo "$out" | grep -c '^VIOLATION')
   if [ $code -ne 0 ] || [ $a -ne 0 ]; then
-    echo "FALSE-ALARM $name: $a alarm(s)"; echo "$out" | grep FAIL | cut -c1-260 | head -8; fail=1; nalarm=$((nalarm+1))
+    echo "FALSE-ALARM $name: $a alarm(s)$(echo; echo "$out" | grep FAIL | cut -c1-260 | head -8)"
   else
     echo "silent     $name"
   fi
-done
+  rm -rf $T
+}
+export -f one
+for d in /verif/refactors/*.diff; do
+  name=$(basename $d .diff)
+  if [ $# -gt 0 ] && ! echo " $* " | grep -q " $name "; then continue; fi
+  echo $d
+done | xargs -P $J -I{} bash -c 'one "$0" "'$S'" "'$BIN'" "'"$what"'"' {} | tee $S/out
+n=$(grep -c -E '^(silent|FALSE-ALARM)' $S/out); nalarm=$(grep -c '^FALSE-ALARM' $S/out)
 echo "refactest: refactorings=$n silent=$((n-nalarm))"
-exit $fail
+if grep -q -E '^(FALSE-ALARM|REFACTEST-BROKEN)' $S/out; then exit 1; fi
+exit 0
